@@ -57,8 +57,13 @@ Fixpoint resolve_loop (n : nat) (st : S) (last : option compiled)
 (** `max_optimize_rounds.max(3)`; the loop assigns, then tests `rounds > max`, so max+2 passes can run *)
 Definition passes_allowed (max_rounds : nat) : nat := Nat.max max_rounds 3 + 2.
 
+(** Compiler::reset: whatever state the instance is in, a resolution starts from the state of a
+    new instance (latest_tx_body = None) *)
+Variable fresh : S.
+Definition reset (st : S) : S := fresh.
+
 Definition resolve (max_rounds : nat) (st : S) : outcome (option compiled * S * bool) :=
-  resolve_loop (passes_allowed max_rounds) st None.
+  resolve_loop (passes_allowed max_rounds) (reset st) None.
 
 (** number of passes actually executed *)
 Fixpoint passes_run (n : nat) (st : S) (last : option compiled) : nat :=
